@@ -206,8 +206,7 @@ func (l c15) Exec(env *core.Env) *core.Result {
 			checkPath(op.Kind+"-target", strings.Replace(strings.TrimPrefix(op.Aux, "->"), "$R", env.Dir, 1))
 		}
 	}
-	sim := rt.New(rt.Config{Tape: p.Tape, Faults: p.Faults, KeepLog: env.KeepLog, Root: env.Dir, Observer: confine, MaxSteps: 3000})
-	rt.Cur = sim
+	sim := core.NewSim(env, confine, 3000)
 	defer func() { rt.Cur = nil }()
 
 	values := map[int64]*c15Val{}
